@@ -2,7 +2,7 @@
 //! u32 words consumed by `Tape::pick`, monotone scaling, 0 = the simplest alternative), so proptest
 //! shrinking of the tape shrinks the choices; the systematic probe list is a pure function.
 
-use super::{ParseCase, NPARSERS, P_CALENDAR, P_DATE, P_DATETIME, P_DURATION, P_INSTANT, P_MD, P_MONTHCODE, P_OFFSET, P_RELTO, P_TIME, P_TZID, P_TZSTR, P_YM, P_ZONED};
+use super::{ParseCase, NPARSERS, P_CALENDAR, P_DATE, P_DATETIME, P_DURATION, P_INSTANT, P_MD, P_MONTHCODE, P_OFFSET, P_RELTO, P_TIME, P_TZID, P_TZSTR, P_YM, P_ZONED, P_ZONED_USE};
 use crate::refm::civil::dim;
 use proptest::prelude::*;
 
@@ -439,7 +439,7 @@ fn valid(t: &mut Tape, f: usize) -> (String, &'static [usize]) {
     match f {
         0 => (date_time(t), &[P_DATE, P_DATETIME, P_YM, P_MD, P_TIME, P_CALENDAR, P_TZSTR, P_RELTO]),
         1 => (instant(t), &[P_INSTANT, P_TZSTR, P_DATETIME]),
-        2 => (zoned(t), &[P_ZONED, P_RELTO, P_TZSTR, P_INSTANT]),
+        2 => (zoned(t), &[P_ZONED, P_ZONED_USE, P_RELTO, P_TZSTR, P_INSTANT]),
         3 => (time_string(t), &[P_TIME, P_TZSTR, P_CALENDAR]),
         4 => (year_month(t), &[P_YM, P_TIME, P_TZSTR]),
         5 => (month_day(t), &[P_MD, P_TIME, P_CALENDAR]),
